@@ -33,9 +33,44 @@ def replay_registry(call):
         key, hol, we, 'a registration with [2020-01-01]/[4,5]' if call.get('registered') else 'no registration', list(got.holidays.keys()), list(got.weekend), exp_h, exp_w))
 
 
+def replay_weekend_sets(call):
+    """every weekend set of one or two days, no holidays: the indexed operations (add with |n| > 1, bdays, drange('1b')) against day-by-day counting"""
+    from pyg_base import Calendar
+    bad, tried = [], 0
+    t0, t1 = D(2021, 1, 1), D(2021, 3, 1)
+    for we in [[i] for i in range(7)] + [[i, (i + 1) % 7] for i in range(7)]:
+        cal = Calendar('replay_we_%d' % next(_ctr), holidays=[], weekend=we, t0=t0, t1=t1, adj='f')
+        is_bd = lambda x: x.weekday() not in we      # noqa
+        days = [t0 + k * DAY for k in range((t1 - t0).days + 1)]
+        bds = [x for x in days if is_bd(x)]
+        for start in bds[3:10]:
+            i = bds.index(start)
+            for n in (2, 3, -2, 5):
+                tried += 1
+                try:
+                    got = cal.add(start, n)
+                except Exception as e:      # noqa
+                    bad.append('weekend %s: add(%s, %d) raised %r' % (we, start.date(), n, e))
+                    continue
+                if got != bds[i + n]:
+                    bad.append('weekend %s: add(%s, %d) = %s, counting business days gives %s' % (we, start.date(), n, got.date(), bds[i + n].date()))
+        try:
+            got = cal.drange(bds[2], bds[12], '1b')
+            if got != bds[2:13]:
+                bad.append('weekend %s: drange(%s, %s, "1b") = %s' % (we, bds[2].date(), bds[12].date(), [x.date() for x in got]))
+            nb = cal.bdays(bds[2], bds[12])
+            if nb != 10:
+                bad.append('weekend %s: bdays(%s, %s) = %s, expected 10' % (we, bds[2].date(), bds[12].date(), nb))
+        except Exception as e:      # noqa
+            bad.append('weekend %s: drange / bdays raised %r' % (we, e))
+    return dict(fails=bool(bad), detail='; '.join(bad[:3]) or '%d indexed operations over 14 weekend sets agree with day-by-day counting' % tried)
+
+
 def replay(call):
     if call.get('kind') == 'registry':
         return replay_registry(call)
+    if call.get('kind') == 'weekend_sets':
+        return replay_weekend_sets(call)
     cal, hol, we, t0, t1 = build(call)
     o = int(call['o'])
     t = D.fromordinal(o) + datetime.timedelta(microseconds=int(call.get('us') or 0))
